@@ -174,6 +174,33 @@ def run(ctx, rep):
         rd = [s for s in walk_nodes(rl.node.body, ast.Assign) if utext(s.targets[0]) == "file"]
         good = good and len(rd) == 1 and utext(rd[0].value) == "f.readlines()"
     rep.check(good, "R2", key(rl, None, "every line of the file is offered to the listener once; one batch per accepted update"), rl)
+    # the listener filter decides per update from the update itself and the market's cache; the only thing it
+    # remembers on its own is the first in-play publish time per market (for max_inplay_seconds): anything else it
+    # kept between updates (a memoised start time ...) could go stale when a later market definition changes it
+    from sa.kinds import store_targets, MUTATORS
+    hs_mod = prog.module("flumine.streams.historicalstream")
+    fp = hs_mod.classes["FlumineMarketStream"].methods.get("_process") if "FlumineMarketStream" in hs_mod.classes else None
+    if fp is None:
+        raise AnalysisError("anchor vanished: historicalstream.FlumineMarketStream._process")
+    own_state = set()
+    for st_ in walk_nodes(fp.node.body, (ast.Assign, ast.AugAssign, ast.Delete)):
+        for t, kind in store_targets(st_):
+            r = t
+            while isinstance(r, ast.Subscript):
+                r = r.value
+            if isinstance(r, ast.Attribute) and utext(r.value) == "self":
+                own_state.add(r.attr)
+    for c in walk_calls(fp.node.body):
+        if isinstance(c.func, ast.Attribute) and c.func.attr in MUTATORS:
+            r = c.func.value
+            while isinstance(r, ast.Subscript):
+                r = r.value
+            if isinstance(r, ast.Attribute) and utext(r.value) == "self":
+                own_state.add(r.attr)
+    allowed_state = {"inplay_publish_times", "_caches", "_updates_processed"}
+    rep.check(own_state <= allowed_state and "inplay_publish_times" in own_state, "R2",
+              key(fp, None, "the listener filter keeps no state of its own beyond the first in-play time per market"), fp, None,
+              "instance state written by the filter: %s" % sorted(own_state - allowed_state))
     sc = prog.own_method("Streams", "__call__")
     rep.check(any(utext(s) == "markets.sort()" for s in walk_nodes(sc.node.body, ast.Expr)), "R2",
               key(sc, None, "market files are registered in sorted order (independent of the order given)"), sc)
@@ -266,6 +293,10 @@ def run(ctx, rep):
 _SI = "flumine/simulation/simulation.py"
 _SU = "flumine/simulation/utils.py"
 MUTANTS = [
+    dict(id="c14-filter-memoises-start-time", file="flumine/streams/historicalstream.py", func="FlumineMarketStream._process",
+         old="                    _market_time = BaseResource.strip_datetime(_definition_market_time)",
+         new="                    _market_time = self.__dict__.setdefault('_mt', {}).get(market_id) or BaseResource.strip_datetime(_definition_market_time)\n                    self._mt[market_id] = _market_time",
+         expect=["R2"], why="a start time changed by a later market definition is ignored by the seconds_to_start filter"),
     dict(id="c14-drop-sort", file=_SI, func="FlumineSimulation.run",
          old="                            cycles.sort(key=lambda x: x[0])\n", new="", expect=["R1"], why="round-robin instead of chronological"),
     dict(id="c14-pop-last", file=_SI, func="FlumineSimulation.run", old="cycles.pop(0)", new="cycles.pop()", expect=["R1"],
